@@ -463,6 +463,33 @@ class Compiler:
 
     # ---- Statements ----
 
+    def _compile_loop_target(self, left: Node) -> None:
+        """Store the value on top of the stack into the target of a for-in/for-of loop and pop it."""
+        if isinstance(left, VariableDeclaration):
+            name = left.declarations[0].id.name
+            if self._in_function:
+                self._add_local(name)
+            self._emit_store_variable(name)
+            self._emit(OpCode.POP)
+        elif isinstance(left, Identifier):
+            self._emit_store_variable(left.name)
+            self._emit(OpCode.POP)
+        elif isinstance(left, MemberExpression):
+            # for (obj.prop in ...) or for (obj[key] of ...)
+            # Stack is [..., iterator, value]; SET_PROP needs obj, prop, value
+            self._compile_expression(left.object)
+            if left.computed:
+                self._compile_expression(left.property)
+            else:
+                idx = self._add_constant(left.property.name)
+                self._emit(OpCode.LOAD_CONST, idx)
+            # [..., iterator, value, obj, prop] -> [..., iterator, obj, prop, value]
+            self._emit(OpCode.ROT3)
+            self._emit(OpCode.SET_PROP)
+            self._emit(OpCode.POP)  # Pop the result of SET_PROP
+        else:
+            raise JSSyntaxError("Invalid loop variable")
+
     def _compile_statement(self, node: Node) -> None:
         """Compile a statement."""
         if isinstance(node, ExpressionStatement):
@@ -635,38 +662,8 @@ class Compiler:
             self._emit(OpCode.FOR_IN_NEXT)
             jump_done = self._emit_jump(OpCode.JUMP_IF_TRUE)
 
-            # Store key in variable
-            if isinstance(node.left, VariableDeclaration):
-                decl = node.left.declarations[0]
-                name = decl.id.name
-                if self._in_function:
-                    self._add_local(name)
-                self._emit_store_variable(name)
-                self._emit(OpCode.POP)
-            elif isinstance(node.left, Identifier):
-                self._emit_store_variable(node.left.name)
-                self._emit(OpCode.POP)
-            elif isinstance(node.left, MemberExpression):
-                # for (obj.prop in ...) or for (obj[key] in ...)
-                # After FOR_IN_NEXT: stack has [..., iterator, key]
-                # We need for SET_PROP: obj, prop, key -> value (leaves value on stack)
-                # Compile obj and prop first, then rotate key to top
-                self._compile_expression(node.left.object)
-                if node.left.computed:
-                    self._compile_expression(node.left.property)
-                else:
-                    idx = self._add_constant(node.left.property.name)
-                    self._emit(OpCode.LOAD_CONST, idx)
-                # Stack is now: [..., iterator, key, obj, prop]
-                # We need: [..., iterator, obj, prop, key]
-                # ROT3 on (key, obj, prop) gives (obj, prop, key)
-                self._emit(OpCode.ROT3)
-                self._emit(OpCode.SET_PROP)
-                self._emit(OpCode.POP)  # Pop the result of SET_PROP
-            else:
-                raise NotImplementedError(
-                    f"Unsupported for-in left: {type(node.left).__name__}"
-                )
+            # Store key in the loop target
+            self._compile_loop_target(node.left)
 
             self._compile_statement(node.body)
 
@@ -694,21 +691,8 @@ class Compiler:
             self._emit(OpCode.FOR_OF_NEXT)
             jump_done = self._emit_jump(OpCode.JUMP_IF_TRUE)
 
-            # Store value in variable
-            if isinstance(node.left, VariableDeclaration):
-                decl = node.left.declarations[0]
-                name = decl.id.name
-                if self._in_function:
-                    self._add_local(name)
-                self._emit_store_variable(name)
-                self._emit(OpCode.POP)
-            elif isinstance(node.left, Identifier):
-                self._emit_store_variable(node.left.name)
-                self._emit(OpCode.POP)
-            else:
-                raise NotImplementedError(
-                    f"Unsupported for-of left: {type(node.left).__name__}"
-                )
+            # Store value in the loop target
+            self._compile_loop_target(node.left)
 
             self._compile_statement(node.body)
 
